@@ -46,7 +46,9 @@ def main():
                 "design_ref": m.get("design_ref", "DESIGN.md section 5, %s" % pid),
             },
             "level_note": m.get("level_note", "; ".join(m.get("trusted_base", []) + m.get("assumptions", []))),
-            "technique": m.get("technique", "static analysis: custom rustc_private MIR fact extractor + CFG dominance / must-pass-through / def-use slicing / who-may-call rules"),
+            "technique": m.get("technique", "static analysis: custom rustc_private MIR fact extractor; rules evaluated on units (entry points with crate-local helpers, closures, "
+                                           "awaits and std combinators spliced / expanded into one normal form, jump-threaded): CFG dominance, edge-labelled "
+                                           "must-pass-through, def-use slicing, who-may-call, and finite-domain abstract evaluation of decision tables; nothing is executed"),
         })
     man = {
         "version": 1,
@@ -63,8 +65,9 @@ def main():
             "path": "/verif/hdlint",
             "serves_properties": engines_props,
             "kind_free_text": "static analysis: rustc_private driver dumping mir_built facts (resolved callees, CFG, types, impl tables) of /repo's "
-                              "current tree per feature configuration + Python rule engine (dominance, edge-labelled must-pass-through, "
-                              "backward slicing, call-graph reachability, who-may-call, sibling agreement, type-table queries)",
+                              "current tree per feature configuration + Python rule engine (MIR splicer / normaliser for units, dominance, edge-labelled "
+                              "must-pass-through, backward slicing, call-graph reachability, who-may-call, sibling agreement, type-table queries, "
+                              "finite-domain abstract evaluation of decision tables)",
         }],
         "checks": checks,
         "not_applicable": na,
